@@ -140,6 +140,14 @@ def run(ctx):
     ctx.set("tlc_cases_by_family", fams)
     recs, summ = replay_cases(ctx, cases, "cases")
     drift = judge_records(ctx, cases, recs)
+    # the same NULL-free cases once more as Float64 arrays whose values are pairwise distinct but closer to each other than
+    # f64::EPSILON (model value x 1e-20): round trip, count, filter and the comparisons (no sum / add / multiply there)
+    tiny = [c for c in cases if all(v >= 0 for v in c["base"]) and all(v >= 0 for v in c.get("bbase", []))]
+    recs2, summ2 = replay_cases(ctx, tiny, "cases_f64e", types=["f64e"])
+    drift += judge_records(ctx, tiny, recs2)
+    ctx.set("evaluations_on_epsilon_close_float64", summ2["evals"])
+    if summ2["evals"] < 200:
+        raise vlib.ToolError("epsilon-close Float64 arrays not exercised")
     # evidence / vacuity
     ctx.set("evaluations", summ["evals"])
     ctx.set("evaluations_agreeing_with_arrow_and_spec", summ["agree"])
